@@ -42,7 +42,14 @@ FINDING_STAND = "C11-argvals-stand-unguarded"
 
 
 def _guard():
-    """0: the argvals_stand setter is listed as an open finding (model = setter as coded); 1: repaired."""
+    """0: the argvals_stand setter is listed as an open finding (model = setter as coded); 1: repaired.
+
+    `VERIF_C11_STAND_GUARD=0|1` overrides (to validate a tree with / without `fixes/C11-argvals-stand.diff`
+    before the entry is moved from `open` to `fixed` in `known_findings.d/C11.json`)."""
+    import os
+
+    if os.environ.get("VERIF_C11_STAND_GUARD") in ("0", "1"):
+        return int(os.environ["VERIF_C11_STAND_GUARD"])
     return 0 if any(f.get("id") == FINDING_STAND for f in common.load_findings(PROP)) else 1
 
 
@@ -554,17 +561,26 @@ def check_obj(x, shadow):
     return _dims_ok(x)
 
 
-def run_history(ops):
+def run_history(ops, light=0):
+    """Replay a history; the first `light` steps are replayed without reading the state back
+    (exhaustive tier: the prefix is judged by its own, shorter, cases)."""
     cu.quiet()
     obj, shadow = None, None
     steps = []
-    for toks in ops:
-        before = cu.show_state(obj)
+    after = "E"
+    for k, toks in enumerate(ops):
+        before = after
         obj2, out, shadow2 = apply_op(obj, toks, shadow)
         if out != "ok":
             obj2, shadow2 = obj, shadow
         obj, shadow = obj2, shadow2
+        if k + 1 < light:
+            steps.append(dict(out=out, state="", obs="", bad=[], unchanged=True))
+            continue
         after = cu.show_state(obj)
+        if k + 1 == light:
+            steps.append(dict(out=out, state=after, obs="", bad=check_obj(obj, shadow), unchanged=True))
+            continue
         steps.append(dict(out=out, state=after, obs=cu.show_observers(obj), bad=check_obj(obj, shadow),
                           unchanged=(before == after)))
     return obj, steps
@@ -673,6 +689,47 @@ def _exhaustive(depth):
                 yield dict(kind="seq", start=kind, ops=[START[kind]] + [al[i] for i in seq], ex=L)
 
 
+def fnv(s: str) -> int:
+    h = 14695981039346656037
+    for b in s.encode():
+        h = ((h ^ b) * 1099511628211) & 0xFFFFFFFFFFFFFFFF
+    return h
+
+
+TREE_DEPTH = 2
+
+
+def _tree_cases():
+    """All histories of length 4 over the alphabet: one case per prefix of length 2, enumerating the
+    576 continuations of length 2 inside the case (digest comparison, explicit oracle)."""
+    for kind in ("dense", "irreg", "multi"):
+        n = len(ALPHABET[kind])
+        for i in range(n):
+            for j in range(n):
+                yield dict(kind="tree", start=kind, prefix=[i, j])
+
+
+def _tree_run(case):
+    kind = case["start"]
+    al = ALPHABET[kind]
+    pre = [START[kind]] + [al[i] for i in case["prefix"]]
+    digests, viol = [], []
+    for seq in itertools.product(range(len(al)), repeat=TREE_DEPTH):
+        ops = pre + [al[i] for i in seq]
+        obj, steps = run_history(ops, light=len(pre))
+        tail = steps[len(pre):]
+        last = steps[-1]
+        inv = ("1" if not last["bad"] else "0")
+        digests.append(fnv("".join("," + t["out"] for t in tail) + " " + last["state"] + " " + last["obs"]))
+        for v in _judge(ops, steps):
+            if v["step"] >= len(pre) and len(viol) < 6:
+                v = dict(v)
+                v.pop("step")
+                v["msg"] += " || history: " + " ; ".join(" ".join(o) for o in ops)
+                viol.append(v)
+    return dict(digests=digests, violations=viol)
+
+
 def random_history(rng: Rng, length):
     cu.quiet()
     obj, shadow = None, None
@@ -699,6 +756,7 @@ def gen_cases(rng: Rng, tier):
         yield from _exhaustive(2)
     else:
         yield from _exhaustive(3)
+        yield from _tree_cases()
 
 
 def search_cases(rng, tier):
@@ -718,15 +776,23 @@ def witness_cases():
 
 def run_impl(case):
     common.use_repo()
+    if case["kind"] == "tree":
+        return _tree_run(case)
     _, steps = run_history(case["ops"])
     return dict(steps=steps)
 
 
 def model_lines(case, impl):
+    if case["kind"] == "tree":
+        al = ALPHABET[case["start"]]
+        pre = [START[case["start"]]] + [al[i] for i in case["prefix"]]
+        return [f"tree {_guard()} {TREE_DEPTH} " + " ".join(t for op in pre for t in op) + " | " + " ".join(t for op in al for t in op)]
     return ["run " + str(_guard()) + " " + " ".join(t for op in case["ops"] for t in op)]
 
 
 def parse_model(case, outs):
+    if case["kind"] == "tree":
+        return dict(error=outs[0]) if outs[0].startswith("bad") else dict(digests=[int(x) for x in outs[0].split(" ")])
     steps = []
     if outs[0] in ("bad", "bad-op"):
         return dict(error=outs[0], steps=[])
@@ -742,6 +808,22 @@ def compare(case, impl, model):
         return [f"implementation crashed: {impl['__crash__']} {impl.get('msg')}"]
     if model.get("error"):
         return [f"model could not parse the history: {model['error']}"]
+    if case["kind"] == "tree":
+        if impl["digests"] == model["digests"]:
+            return []
+        al = ALPHABET[case["start"]]
+        seqs = list(itertools.product(range(len(al)), repeat=TREE_DEPTH))
+        if len(impl["digests"]) != len(model["digests"]):
+            return [f"{len(impl['digests'])} continuations vs model {len(model['digests'])}"]
+        k = next(i for i, (a, b) in enumerate(zip(impl["digests"], model["digests"])) if a != b)
+        ops = [START[case["start"]]] + [al[i] for i in case["prefix"]] + [al[i] for i in seqs[k]]
+        sub = dict(kind="seq", start=case["start"], ops=ops)
+        try:
+            sub_impl = run_impl(sub)
+            sub_model = parse_model(sub, common.run_driver(DRIVER, model_lines(sub, sub_impl)))
+            return [f"history {' ; '.join(' '.join(o) for o in ops)}: " + "; ".join(compare(sub, sub_impl, sub_model) or ["digests differ"])]
+        except Exception as e:  # noqa: BLE001
+            return [f"history {ops}: digests differ ({e!r})"]
     ds = []
     if len(impl["steps"]) != len(model["steps"]):
         return [f"{len(impl['steps'])} steps vs model {len(model['steps'])}"]
@@ -824,6 +906,8 @@ def _shrink(ops, clause, entry):
 def oracle(case, impl):
     if "__crash__" in impl:
         return [dict(clause="runs", entry="history", msg=f"crash {impl['__crash__']}: {impl.get('msg')} {impl.get('tb', '')[-300:]}")]
+    if case["kind"] == "tree":
+        return [dict(v) for v in impl["violations"]]
     vs = _judge(case["ops"], impl["steps"])
     for v in vs:
         v.pop("step", None)
@@ -845,6 +929,8 @@ def _empty_irregular_involved(ops, steps, k):
 def nontrivial(case, impl):
     if "__crash__" in impl:
         return None
+    if case["kind"] == "tree":
+        return digest(case) if len(set(impl["digests"])) > 1 else None
     outs = [s["out"] for s in impl["steps"]]
     if "ok" in outs[1:] and any(o not in ("ok", "na") for o in outs):
         return digest(case["ops"])
@@ -853,6 +939,8 @@ def nontrivial(case, impl):
 
 
 def classify(case, impl):
+    if case["kind"] == "tree":
+        return ["start:" + case["start"], "tree:576-continuations-of-length-2"]
     tags = ["start:" + str(case.get("start")), "len:" + ("1-4" if len(case["ops"]) <= 5 else "5-12" if len(case["ops"]) <= 12 else "13+")]
     if "__crash__" in impl:
         return tags + ["crash"]
